@@ -258,7 +258,7 @@ PROPS = {
                                            "port 6881 is free on the machine (runs are serialised by a lock file)"],
     },
     "C20": {
-        "lean_modules": ["RdestModel.Props.C20"],
+        "lean_modules": ["RdestModel.Props.C20", "RdestModel.Props.C20Whole"],
         "cases": {"quick": 400, "thorough": 12000},
         "rule": "scripts for the REAL connection task (PeerHandler over an in-memory stream, scripted manager, tokio paused clock, current-thread "
                 "runtime): handshake, then 3..28 events drawn from timer advances {1,30,59,60,61,119,120,121,239,240,360 s} and frames of all "
